@@ -178,8 +178,30 @@ MALFORMED = ['/<x', '/<x.int', '/<x:int', '/a/:/b', '/:x-y', '/<1>', '/<x.>', '/
              '/<x.int()[1]>', '/<:>', '/<x.int(\\)>', '/<x.f(a(b)c)[]]>', '/a/<x:int', '/<x.int>/<y', '/<:re:[a>']
 
 
+def in_domain(rule):
+    """no marker character in the rule text and no repeated wildcard name (see Model/Router.lean:
+    outside, Python pairs filters and markers wrongly and the model does not follow)"""
+    if TOKEN in rule:
+        return False
+    from ombott.router.radirouter import Route
+    try:
+        params = Route.parse_rule(rule)[1]
+    except Exception:
+        # the parse stops at the error; names seen so far cannot be paired wrongly
+        return True
+    return len(set(params)) == len(params)
+
+
 def gen_rule(rng, asts):
-    """(rule text, ast or None)"""
+    """(rule text, ast or None); always inside the model's domain"""
+    for _ in range(20):
+        t, ast = _gen_rule(rng, asts)
+        if in_domain(t):
+            return t, ast
+    return '/a', [('lit', 'a')]
+
+
+def _gen_rule(rng, asts):
     r = rng.random()
     if r < .06:
         t = rng.choice(MALFORMED)
@@ -467,6 +489,10 @@ class Runner:
         return got.get('status'), allow, list(self.calls)
 
     def remove_method(self, idx, methods):
+        if idx not in self.routes:           # the add it refers to was rejected: keep positions aligned
+            self.ops.append('N')
+            self.answers.append('skip')
+            return
         self.routes[idx].remove_method(list(methods))
         self.ops.append('D|%d|%s' % (idx, hsl(methods)))
         self.answers.append('ok')
